@@ -180,21 +180,26 @@ def run(tier):
     ck.floor("generated ADTs in plugin-api", ne, 20)
 
     # ---- V2: nothing hides fields ------------------------------------------------------------------------
-    gf = facts.cfg_gen()
-    ck.unit("cglue-gen string constants")
+    # the generator as it is built for a layout_checks expansion (cfg(feature = "layout_checks") code included)
+    gf = facts.cfg_gen(features="cglue-gen/layout_checks,cglue-macro/layout_checks")
+    ck.unit("cglue-gen (feature layout_checks) string constants")
     from rules.c16 import str_consts
     bad = []
     seen_ident = False
+    seen_lc = False
     for f in gf.fns("cglue_gen-lib"):
         out = []
         str_consts(f["body"], out)
         for p in f.get("promoted", []):
             str_consts(p, out)
         for s in out:
-            if s == "PhantomData":
+            if s == "PhantomData" or s == "StableAbi":
                 seen_ident = True
+            if s == "StableAbi":
+                seen_lc = True
             if s in ("sabi", "unsafe_opaque_fields", "unsafe_opaque_field", "unsafe_unconstrained") or "unsafe_opaque_field" in s:
                 bad.append((f["path"], s))
+    ck.require(seen_lc, "the analysed generator build contains the layout_checks code (identifier `StableAbi` present)")
     ck.require(seen_ident, "quote! identifiers are visible as string constants in cglue-gen's MIR (scan is not vacuous)")
     ck.ob("V2-generator-emits-no-opaque-field-attr", "cglue-gen", not bad, "cglue-gen can emit a field-hiding sabi attribute: %s" % bad)
     # in the runtime crate, `sabi(unsafe_opaque_fields)` may be carried by c_void only
